@@ -42,8 +42,9 @@ def expected_reward(I, rate, fstart, fend, user_snaps, total_snaps, first, until
 class Scn:
     """two users (alice, bob) on LP1, one or two farms paying uusd; concrete epochs"""
 
-    def __init__(self, I, alice_second=None, bob_from=6, last_a=None, last_b=None, farms=((4, 12),), alice_from=3, cursor_gap=False):
+    def __init__(self, I, alice_second=None, bob_from=6, last_a=None, last_b=None, farms=((4, 12),), alice_from=3, cursor_gap=False, epoch=None):
         self.I = I
+        self.E = E if epoch is None else epoch
         # representation invariant of the weight history: a claim up to epoch L leaves the claimant's earliest
         # snapshot exactly at L (sync_address_lp_weight_history), so no snapshot older than the cursor exists.
         # cursor_gap: the cursor L comes from a claim made while alice only held a position on ANOTHER LP token; her
@@ -54,7 +55,7 @@ class Scn:
             bob_from = last_b
         I.set_hint(HINT)
         fm_config(I, max_concurrent=2)
-        set_epoch(I, E, now_s=E * DAY + 5)
+        set_epoch(I, self.E, now_s=self.E * DAY + 5)
         set_ownership(I, FM, 'admin')
         b = bank_of(I)
         self.b = b
@@ -130,7 +131,7 @@ class Scn:
         return 'ok', r.f[0].data
 
 
-def replay_scn(alice_second, last_a, farms=((4, 12),), bob_from=6, alice_from=3, last_b=None, actions=None, cursor_gap=False):
+def replay_scn(alice_second, last_a, farms=((4, 12),), bob_from=6, alice_from=3, last_b=None, actions=None, cursor_gap=False, epoch=None):
     """native scenario reproducing Scn from a model; actions: list of (user, until|None)"""
     from .pm import generic_replay
 
@@ -155,7 +156,7 @@ def replay_scn(alice_second, last_a, farms=((4, 12),), bob_from=6, alice_from=3,
             weights += [('alice', LP2, last_a, 1000), ('farm_manager', LP2, last_a, 1000)]
             mints.append((LP2, 1000))
         steps = fm_state_steps(None, positions=positions,
-                               farms=fl, weights=weights, last_claimed=lc, now_s=E * DAY + 5,
+                               farms=fl, weights=weights, last_claimed=lc, now_s=(E if epoch is None else epoch) * DAY + 5,
                                mints=[('farm_manager', mints)])
         for (user, until) in (actions or [('alice', None)]):
             steps.append({'op': 'execute', 'contract': 'farm_manager', 'sender': user, 'funds': [], 'msg': {'claim': {'until_epoch': until}}})
@@ -169,7 +170,7 @@ def observe_claim_state(I, sc, users=('alice', 'bob')):
     for u in users:
         I.observe('bal:%s:uusd' % u, b.get(u, 'uusd'))
         snaps = dict(weights_of(I, u, LP1))
-        for e in range(1, E + 2):
+        for e in range(1, getattr(sc, 'E', E) + 2):
             I.observe('snap:%s:%s:%d' % (u, LP1, e), snaps.get(e))
         I.observe('last:%s' % u, last_claimed_of(I, u))
     I.observe('bal:farm_manager:uusd', b.get(FM, 'uusd'))
@@ -291,6 +292,38 @@ for _sec, _last, _k in ((8, None, 7), (8, None, 8), (8, 5, 6), (None, None, 5), 
                statement='claim(until_epoch = k) followed by claim() pays the same total as a single claim(), for the same state',
                bounds='as L3; split epoch %s' % _k, covers=['ok'],
                replay=replay_scn(_sec, _last, actions=[('alice', _k), ('alice', None)]))(_ob_schedule(_sec, _last, _k))
+
+
+def _ob_query_equals_claim_expired(until):
+    def s(I):
+        # long after the farm ended: it has EXPIRED (end + ~30.4 days passed) but nobody closed it; unclaimed epochs are still paid by Claim
+        sc = Scn(I, alice_second=None, bob_from=4, farms=((2, 6),), epoch=45)
+        b = sc.b
+        qs, resp = sc.query_rewards('alice', until)
+        pre = b.snapshot()
+        st, r = sc.claim('alice', until)
+        if st != 'ok':
+            I.outcome('claim_rejected')
+            return
+        I.cover('ok', HINT)
+        I.observe('status', 'ok')
+        I.observe('bal:alice:uusd', b.get('alice', 'uusd'))
+        I.observe('last:alice', last_claimed_of(I, 'alice'))
+        I.check('query_succeeds_when_claim_does', qs == 'ok')
+        if qs != 'ok':
+            return
+        paid = simp(b.get('alice', 'uusd') - pre.get('alice', 'uusd'))
+        I.check('query_total_equals_claim_payment', smt.Eq(coins_total(resp.get('total_rewards'), 'uusd'), paid))
+        exp, _ = sc.expected('alice', 45 if until is None else until)
+        I.check('expired_farm_still_pays_its_epoch_shares', smt.Eq(paid, exp))
+    return s
+
+
+for _until in (None, 4):
+    obligation('C07', 'Q2.rewards_query_equals_claim_expired_farm_until%s' % _until, entries=['query', 'query_rewards', 'calculate_rewards', 'is_farm_expired', 'execute', 'claim'], kind='R',
+               statement='a farm that has expired but was never closed: the Rewards query still equals what an immediate Claim pays, which is the sum of the epoch shares',
+               bounds='current epoch 45, farm [2,6) (expired since epoch ~38), user snapshots at 3, another user from 4; until_epoch %s; weights / rate symbolic' % _until, covers=['ok'],
+               replay=replay_scn(None, None, farms=((2, 6),), bob_from=4, epoch=45, actions=[('alice', _until)]))(_ob_query_equals_claim_expired(_until))
 
 
 def _ob_farm_order(farms, until):
